@@ -931,6 +931,117 @@ func runC16(c *Ctx) {
 		}
 		c.DistinctCase(fmt.Sprint("prer", i))
 	}
+	// (a) a Delete for an object the handler was never told about: the object is
+	// cached when the monitor subscribes and deleted before the monitor lists at
+	// readiness — the initial content lacks it, the Delete is still delivered;
+	// (b) a handler that stalls until 130 events have arrived (its subscription's
+	// buffer overflows): afterwards still exactly one OnInitialize, at the
+	// beginning, and the callbacks are an in-order subsequence of the events
+	for i := 0; i < 4; i++ {
+		var problems []string
+		what := []string{"a Delete for an object that was deleted between the monitor's Subscribe and its initial list", "a handler stalled until its subscription's buffer has overflowed"}[i%2]
+		c.Now(what)
+		dl := sched.Bubble(c.T, func() {
+			ctx, cancel := context.WithCancel(context.Background())
+			defer cancel()
+			pert := sched.NewPerturb(c.Seed+int64(i), i%3)
+			src := kcache.NewVerifSource(ctx, pert.Log(), (&Filt{Tag: FNull}).Go())
+			x := &Obj{ID: 1, Kind: KPod, NS: 1, NM: 1, RV: "1", Spec: SPod}
+			y := &Obj{ID: 2, Kind: KPod, NS: 1, NM: 2, RV: "1", Spec: SPod}
+			src.CacheActor().Update(kcache.NewEvent(kcache.EventTypeCreate, x.Go()))
+			src.CacheActor().Update(kcache.NewEvent(kcache.EventTypeCreate, y.Go()))
+			nd := &node{id: 1, kind: nMonitor}
+			if i%2 == 1 {
+				src.MakeReady()
+			}
+			mon, err := kcache.NewMonitor(src, nd.handler())
+			if err != nil {
+				problems = append(problems, "NewMonitor failed")
+				return
+			}
+			nd.mon = mon
+			pert.Barrier()
+			var want []string
+			if i%2 == 0 {
+				xd := &Obj{ID: 3, Kind: KPod, NS: 1, NM: 1, RV: "2", Spec: SPod}
+				src.CacheActor().Update(kcache.NewEvent(kcache.EventTypeDelete, xd.Go()))
+				src.Send(kcache.NewEvent(kcache.EventTypeDelete, xd.Go()))
+				pert.Barrier()
+				src.MakeReady()
+				pert.Barrier()
+				want = []string{"init[2]", "delete[3]"}
+			} else {
+				want = []string{"init[1 2]"}
+				nd.setHandlerBlock(true)
+				for k := 0; k < 130; k++ {
+					o := &Obj{ID: 100 + k, Kind: KPod, NS: 2, NM: 1 + k%3, RV: fmt.Sprint(k + 2), Spec: SPod}
+					ty := kcache.EventTypeUpdate
+					if k < 3 {
+						ty = kcache.EventTypeCreate
+					}
+					src.CacheActor().Update(kcache.NewEvent(ty, o.Go()))
+					src.Send(kcache.NewEvent(ty, o.Go()))
+					if k%20 == 19 {
+						pert.Barrier()
+					}
+				}
+				pert.Barrier()
+				nd.setHandlerBlock(false)
+				pert.Barrier()
+			}
+			hl, overlap := nd.handlerLog()
+			if overlap {
+				problems = append(problems, "callbacks overlapped")
+			}
+			var got []string
+			for _, h := range hl {
+				got = append(got, h.what+fmt.Sprint(h.ids))
+			}
+			if i%2 == 0 {
+				if fmt.Sprint(got) != fmt.Sprint(want) {
+					problems = append(problems, fmt.Sprintf("callbacks were %v, expected %v", got, want))
+				}
+			} else {
+				inits, lastID := 0, -1
+				for k, h := range hl {
+					if h.what == "init" {
+						inits++
+						if k != 0 {
+							problems = append(problems, fmt.Sprintf("OnInitialize ran as callback number %d, after other callbacks", k+1))
+						}
+						continue
+					}
+					if len(h.ids) != 1 || h.ids[0] <= lastID {
+						problems = append(problems, fmt.Sprintf("callback %d (%s%v) is out of order or repeated", k+1, h.what, h.ids))
+					} else {
+						lastID = h.ids[0]
+					}
+				}
+				if inits != 1 || len(hl) < 1+50 {
+					problems = append(problems, fmt.Sprintf("a stalled handler saw %d OnInitialize calls and %d callbacks in all (130 events were published, its buffer holds %d)", inits, len(hl), kcache.EventBufsiz))
+				}
+				if len(hl) > 0 && fmt.Sprint(got[0]) != want[0] {
+					problems = append(problems, fmt.Sprintf("the first callback was %s, expected %s", got[0], want[0]))
+				}
+			}
+			src.Stop()
+			pert.SetLevel(0)
+			sched.Settle()
+			cancel()
+			sched.Settle()
+		})
+		runs++
+		c.Rep.Evaluations++
+		replay := map[string]interface{}{"scenario": what, "attempt": i}
+		if dl != "" {
+			replay["deadlock"] = dl
+			c.Violation("", "hang (bubble deadlock): "+what, replay)
+		}
+		for _, p := range problems {
+			c.Violation("", p+" ["+what+"]", replay)
+		}
+		c.DistinctCase(fmt.Sprint("unannounced-or-stalled", i))
+	}
 	// one Handler value given to several monitors — a monitor closed and
 	// re-created with the handler built at start-up, and the same handler on a
 	// second publisher: every monitor initialises it with its own content and
